@@ -46,6 +46,14 @@ func routeInstances(tier string) []explore.Params {
 		}
 		return []explore.Params{{"pat": strings.Join(pats, ",")}}
 	}
+	if tier == "backlog" { // C06: 320 dials at once from go-plugin's own RPCClient to a hand-written plugin on a stock yamux session
+		// (accept queue of 256) that starts to accept streams one second later
+		var pats []string
+		for i := 0; i < 320; i++ {
+			pats = append(pats, "hA0")
+		}
+		return []explore.Params{{"pat": strings.Join(pats, ","), "raw": "p", "hostclient": "1", "slowaccept": "1000", "notime": "1"}}
+	}
 	if tier == "rawpeer" { // C06: one end is a hand-written peer that sends ids and acknowledgements in two pieces
 		for _, raw := range []string{"h", "p"} {
 			for _, a := range []string{"hA0", "hD0", "pA0", "pD0", "hA2000", "pD2000"} {
